@@ -176,7 +176,7 @@ def run(chk, replay=None):
         LSETS = ["real", "int", "str2", "typed3"]
         for k in range(48 if quick else 400):
             reqs.append(f"long {LSETS[k % 4]} {rng.next() % 1000000007} 9")
-        for k in range(0 if quick else 24):
+        for k in range(0 if quick else 16):
             reqs.append(f"long {LSETS[k % 4]} {rng.next() % 1000000007} 17")
         # examples with 70000 features, variables with indices around 2^8 and 2^16
         for k in range(40 if quick else 800):
